@@ -20,11 +20,11 @@ META = {
     "level_text": "c21_refines_partial (all outputs of every history equal those of the ideal-memory-plus-queues "
     "specification), c21_resp_value, c21_order, c21_req_ready are proved for every depth, every number of read and "
     "write ports, all four modes and every history with distinct write rows per cycle, under the added hypothesis "
-    "'granularity is None or not read_on_resp' (the excluded region violates the property: candidate defect F5, "
-    "witness kept) and request addresses below depth; the model is tied to the code by "
+    "'granularity is None, or one chunk per word (mask width 1), or not read_on_resp' - exactly the complement of the "
+    "open finding F5, whose region violates the property (witness kept) - and request addresses below depth; the model is tied to the code by "
     "cycle-exact comparison of done bits, returned data and ready bits for depths 1..9, 1..3 read/write ports, with "
     "and without granularity, incl. the F5 region and same-row writes (model-vs-implementation agreement only there)",
-    "level_note": "partial: theorem hypothesis excludes granularity together with read_on_resp (F5). trusted: Lean "
+    "level_note": "partial: theorem hypothesis excludes read_on_resp together with a granularity of >= 2 chunks (F5). trusted: Lean "
     "kernel, axioms propext/Quot.sound/Classical.choice; amaranth.lib.memory.Memory port semantics as modelled in "
     "TxV/Model/BankMem.lean and MemoryBank.lean (read register with enable, transparency, granularity; exercised, "
     "not verified); pysim; harness glue. memory_type: default amaranth Memory in the theorems; MultiReadMemory, "
